@@ -16,7 +16,7 @@ TIMEOUT = {"quick": 240, "thorough": 1800}
 RULE = ("calls = generated method names (identifiers, flat dotted registrations, dotted paths through a registered "
         "instance with nested attributes, arbitrary Unicode names through getattr) x positional or keyword style x "
         "plain call / chained dotted call / MultiCall at every batch position mixed with notifications (MultiCall objects "
-        "reused across batches, including notification-only batches), with generated "
+        "reused across batches, including notification-only batches; batch sizes 1-25 and 31-33, 99-101, 128, 257), with generated "
         "JSON arguments and an independently planned return value (falsy values over-weighted), in every cell of "
         "version {1.0,2.0} x {bare dispatcher + loopback, Simple x {TCP,Unix}, Pooled x {TCP,Unix}} x class translation "
         "{on,off} (20 cells, all instantiated in every run). Oracles: probe log shows exactly one invocation with the "
@@ -240,7 +240,11 @@ def judge_exchange(ctx, c, case, out, ran, expected_calls, planned, hmark, bmark
 
 def multicall(ctx, c, rng):
     import jsonrpclib
-    n = rng.randint(1, 6)
+    r = rng.random()
+    # batch sizes: mostly small; also around the places where a positional scheme could break (10/11 and 100/101:
+    # textual vs numeric order of positions; powers of two) and long batches
+    n = rng.randint(1, 6) if r < 0.7 else rng.randint(7, 25) if r < 0.9 else \
+        rng.choice([9, 10, 11, 12, 31, 32, 33, 99, 100, 101, 128, 257])
     jobs = []
     names = [nm for nm in FLAT_NAMES + INSTANCE_NAMES if nm.split(".")[0] not in MC_EXCLUDED]
     all_notify = rng.random() < 0.15
@@ -281,6 +285,7 @@ def multicall(ctx, c, rng):
                                                for j in jobs])), nontrivial=len(ran) > 0)
     ctx.count("judged:multicall")
     ctx.count("judged:multicall-positions", n)
+    ctx.cell("batch-size", "1-6" if n <= 6 else "7-10" if n <= 10 else "11-99" if n < 100 else "100+")
     expected_calls = [(j["name"], j["args"], j["kwargs"]) for j in jobs]
     planned = [j["planned"] for j in jobs if not j["notify"]]
     judge_exchange(ctx, c, case, out, ran, expected_calls, planned, hmark, bmark, "multicall")
